@@ -655,6 +655,25 @@ def _padded_enough(fnode, x, k):
     return bool(cases) and all(min_len(c.sub.value) >= need for c in cases)
 
 
+def _len_fact_on_paths(fnode, x, k):
+    """the length fact holds on every structural path, with locals substituted (a boolean local
+    such as `has_items = xs is not None and len(xs) > 0` counts through its definition)"""
+    from . import symex
+    try:
+        cases = symex.Walker(is_sink=lambda n: n is x, sink_types=(ast.Subscript,)).run(fnode)
+    except (symex.TooManyPaths, RecursionError):
+        return False
+    if not cases:
+        return False
+    for cs in cases:
+        atoms = []
+        for t, pol in list(cs.conds) + [(symex.subst(t_, cs.env), p_) for t_, p_ in short_circuit_facts(x)]:
+            atoms.extend(symex._atoms(t, pol))
+        if not _len_fact_ok(atoms, unparse(cs.sub.value), k):
+            return False
+    return True
+
+
 def _g7(f, out):
     for x in walk_fn(f.node):
         if not (isinstance(x, ast.Subscript) and isinstance(x.ctx, ast.Load)):
@@ -677,6 +696,8 @@ def _g7(f, out):
         if _len_fact_ok(facts, base, k):
             continue
         if isinstance(f.node, (ast.FunctionDef, ast.AsyncFunctionDef)) and _padded_enough(f.node, x, k):
+            continue
+        if isinstance(f.node, (ast.FunctionDef, ast.AsyncFunctionDef)) and _len_fact_on_paths(f.node, x, k):
             continue
         out.append(Finding('G7', 'REFUTED', f.mod, enclosing_stmt(x) or x, f.key,
                            '%s is indexed with the constant %d but no dominating test shows the '
